@@ -135,15 +135,21 @@ func timingOracles(c *Ctx) {
 					got = fmt.Sprintf("panic: %v", r)
 				}
 			}()
-			ret, _, err := ev.Run(context.Background(), []byte("g[0] = 5\nreturn [f(1), a, g]"))
+			ret, _, err := ev.Run(context.Background(), []byte("g[0] = 5\nreturn [f(1), a, g, b]"))
 			if err != nil {
 				got = "error: " + semFirstLine(err.Error())
 				return
 			}
 			got = ret.String()
 		}()
-		if got != "[42, 41, [5, 2]]" {
-			c.Violation(PropViolation{"C09", fmt.Sprintf("after a fragment was cancelled (%s) the session does not continue normally: the next fragment gives %s, want [42, 41, [5, 2]]", when, got),
+		// what the cancelled fragment assigned before it was stopped stays (b = 8 in the loop); a fragment
+		// that never started leaves its declared name undefined
+		want := "[42, 41, [5, 2], undefined]"
+		if when == "while-running" {
+			want = "[42, 41, [5, 2], 8]"
+		}
+		if got != want {
+			c.Violation(PropViolation{"C09", fmt.Sprintf("after a fragment was cancelled (%s) the session does not continue normally: the next fragment gives %s, want %s", when, got, want),
 				"a := 41; f := func(x) { return a + x }; g := [1, 2] | <cancelled fragment> | g[0] = 5; return [f(1), a, g]", "C09:session-lost-after-cancel:" + when})
 		}
 	}
@@ -161,5 +167,28 @@ func timingOracles(c *Ctx) {
 			}
 		}
 		cancel1()
+	}
+	// 6. a Go callee that is called through an Invoker (here time.Sleep handed to a host callback) still knows
+	// its VM: the abort reaches it
+	{
+		c.dist["oracle:invoker-go-callee-abort"]++
+		mm := ugo.NewModuleMap().AddBuiltinModule("time", ugotime.Module)
+		bc, err := ugo.Compile([]byte("global cb\ntime := import(\"time\")\ncb(time.Sleep, time.Hour)\nreturn 1"), ugo.CompilerOptions{ModuleMap: mm})
+		if err == nil {
+			cb := &ugo.Function{Name: "cb", ValueEx: func(call ugo.Call) (ugo.Object, error) {
+				return ugo.NewInvoker(call.VM(), call.Get(0)).Invoke(call.Get(1))
+			}}
+			vm := ugo.NewVM(bc)
+			done := make(chan error, 1)
+			go func() { _, err := vm.Run(ugo.Map{"cb": cb}); done <- err }()
+			time.Sleep(60 * time.Millisecond)
+			vm.Abort()
+			select {
+			case <-done:
+			case <-time.After(3 * time.Second):
+				c.Violation(PropViolation{"C09", "time.Sleep(time.Hour) called through an Invoker from a host callback: Run still sleeping 3 s after Abort", "cb(time.Sleep, time.Hour) with cb = func(c) { return NewInvoker(c.VM(), c.Get(0)).Invoke(c.Get(1)) }", "C09:invoker-go-callee-abort-lost"})
+				go func() { vm.Abort(); <-done }()
+			}
+		}
 	}
 }
